@@ -114,6 +114,20 @@ def postmap(ctx, prog, b):
     bi, t, name = vv[0]
     sol = t['dest']['local']
     inner = strip(b.call_term(t, (bi, None)))
+    # the post-map may live in a helper of the wrapper that takes the inner solutions and returns them: fn(&self, Solutions) -> Solutions
+    rv0 = [strip(x[0]) for x in b.return_values()]
+    if len(rv0) == 1 and isinstance(rv0[0], tuple) and rv0[0][0] == 'call' and rv0[0][1] in prog.bodies and prog.bodies[rv0[0][1]].kind != 'Closure':
+        hb = prog.bodies[rv0[0][1]]
+        pos = [k for k, a in enumerate(rv0[0][2:], start=1) if strip(a) == inner]
+        if len(pos) == 1 and 'Vec<[f64; 6]>' in hb.local_ty(pos[0]) and 'Vec<[f64; 6]>' in hb.local_ty(0) and util.is_param(rv0[0][2], 1):
+            ctx.fn(hb)
+            res = _postmap_of(ctx, prog, hb, ('param', pos[0], hb.name_of(pos[0])), name, bi)
+            res['helper'] = hb
+            return res
+    return _postmap_of(ctx, prog, b, inner, name, bi)
+
+
+def _postmap_of(ctx, prog, b, inner, name, bi):
     res = {'inner': name, 'site': bi, 'writes': [], 'all_elements': False, 'X': None}
     # form A: solutions.iter_mut().for_each(closure)
     for ci, ct in b.calls():
@@ -235,6 +249,8 @@ def run(ctx):
             n = cname(callee_name(ct))
             if ci == vbi or n.split('::')[-1] in ('deref_mut', 'deref', 'index_mut', 'index', 'len', 'iter_mut', 'iter', 'into_iter', 'is_empty', 'for_each', 'next', 'enumerate'):
                 continue
+            if pm.get('helper') is not None and ct['callee'].get('resolved') == pm['helper'].path:
+                continue             # the helper that *is* the post-map (analysed above)
             if any(a.get('k') in ('copy', 'move') and util._ref_root(b, a) == sol for a in ct['args']):
                 extra.append('%s at %s' % (n, b.where(ci)))
         ctx.check(not extra, 'R16.1', m + '/only-postmap', b.where(vbi), b.path,
